@@ -37,6 +37,8 @@ var c02Rules = []c02Rule{
 	{"drop-on-meta", `{source_labels: [__meta_keep], regex: "yes", action: drop}`},
 	{"hashmod", `{source_labels: [__address__], modulus: 2, target_label: bucket, action: hashmod}`},
 	{"drop-address", `{source_labels: [__meta_keep], regex: "yes", target_label: __address__, replacement: ""}`},
+	// one member of a job (also of an https job) relabeled to plain http
+	{"scheme-http-on-meta", `{source_labels: [__meta_keep], regex: "yes", target_label: __scheme__, replacement: "http"}`},
 }
 
 type c02Job struct {
@@ -194,6 +196,27 @@ func c02Run(text string, gs []*targetgroup.Group) (ref, got []pipe.One, gen []by
 	return ref, got, gen, refFailures, err
 }
 
+// c02RunExplored: round, the explorer probes every active target, the same round again; what the shards
+// get from the second round is compared with the single Prometheus.
+func c02RunExplored(text string, gs []*targetgroup.Group) (ref, got []pipe.One, gen []byte, err error) {
+	info, err := pipe.LoadInfo(text)
+	if err != nil {
+		return nil, nil, nil, fmt.Errorf("config rejected: %v", err)
+	}
+	refInfo, _ := pipe.LoadInfo(text) // the reference reads its own parse of the text
+	ref, _ = pipe.Reference(refInfo.Config.ScrapeConfigs[0], gs)
+	round := map[string][]*targetgroup.Group{"j1": gs}
+	_, d := pipe.Discovered(info, []map[string][]*targetgroup.Group{round})
+	pipe.ExploreAll(info, d)
+	active := pipe.Rediscover(d, round)
+	gen, err = pipe.Inject(refInfo, pipe.Ship(active), sidecar.InjectConfigOptions{ProxyURL: "http://127.0.0.1:8008"})
+	if err != nil {
+		return ref, nil, nil, fmt.Errorf("inject: %v", err)
+	}
+	got, err = pipe.Sharded(refInfo, "j1", gen)
+	return ref, got, gen, err
+}
+
 // c02RunHistory: the shard first ran the same job WITHOUT its params (and got its targets then); the
 // configuration is then reloaded to the real job. The coordinator pushes a new assignment only when the
 // set of target hashes changed (shard.needUpdate) - otherwise the sidecar keeps what it has.
@@ -310,6 +333,18 @@ func init() {
 					continue
 				}
 				kind, detail := c02Diff(ref, got)
+				if kind == "" && !strings.Contains(g.name, "invalid-char") {
+					// the same pipeline one discovery round later, after the coordinator's explorer has probed
+					// every target (it builds their URLs from the job settings it shares with the discovery)
+					eref, egot, egen, eerr := c02RunExplored(text, g.groups)
+					r.Transitions++
+					if eerr != nil {
+						r.Violate("C02:pipeline-error:after-exploration", "pipeline", fmt.Sprintf("%s / %s after exploration: %v", j.name(), g.name, eerr), idx, rp("pipeline", eerr.Error()))
+					} else if ek, ed := c02Diff(eref, egot); ek != "" {
+						ref, got, gen = eref, egot, egen
+						r.Violate("C02:"+ek+":after-exploration", "equivalence", fmt.Sprintf("%s / %s, in the round after the explorer probed the targets: %s", j.name(), g.name, ed), idx, rp("equivalence", ed))
+					}
+				}
 				if kind == "" && j.params > 0 && !strings.Contains(g.name, "invalid-char") {
 					// the same pipeline after a configuration reload that added the job's params
 					href, hgot, hgen, herr := c02RunHistory(j, g.groups)
